@@ -10,6 +10,7 @@ import (
 	"encoding/json"
 	"fmt"
 	"os"
+	"strings"
 	"time"
 
 	"github.com/nyaruka/gocommon/dates"
@@ -51,13 +52,34 @@ func (AssumeError) Error() string { return "VERIF-ASSUME" }
 
 // Load reads the replay file; called by the generated test driver.
 func Load() string {
-	loaded = true
-	pos = 0
-	Covers, Notes, Knowns = nil, nil, nil
-	p := os.Getenv("VERIF_REPLAY")
-	if p == "" {
+	paths := ReplayPaths()
+	if len(paths) == 0 {
+		loaded = true
+		pos = 0
+		Covers, Notes, Knowns = nil, nil, nil
 		return ""
 	}
+	return LoadPath(paths[0])
+}
+
+// ReplayPaths lists the replay files named by VERIF_REPLAY (one, or several
+// separated by the path list separator).
+func ReplayPaths() []string {
+	var out []string
+	for _, p := range strings.Split(os.Getenv("VERIF_REPLAY"), string(os.PathListSeparator)) {
+		if p != "" {
+			out = append(out, p)
+		}
+	}
+	return out
+}
+
+// LoadPath reads one replay file.
+func LoadPath(p string) string {
+	loaded = true
+	pos = 0
+	cur = replay{}
+	Covers, Notes, Knowns = nil, nil, nil
 	b, err := os.ReadFile(p)
 	if err != nil {
 		panic(err)
